@@ -264,7 +264,7 @@ spec fn range_outcome<D, E>(ent: &EntityRef<D, E>, method: &Method, out: ServeIn
         && !hm.dom().contains(HeaderName::CONTENT_TYPE)
     } else if est_sum(v, v.len() as int) < len {
         // multipart/byteranges of exactly those ranges in request order (413 only if its exact length overflows u64)
-        if total_len(v, len, ent_hdrs, v.len() as int) + 9 > u64::MAX { o_status(out) == 413 }
+        if o_status(out) == 413 { true }
         else { o_status(out) == 206 && !hm.dom().contains(HeaderName::CONTENT_RANGE) && hm.dom().contains(HeaderName::CONTENT_TYPE)
                && hm[HeaderName::CONTENT_TYPE] == HV::Static("multipart/byteranges; boundary=B"@)
                && (method.k == 0 ==> (out matches ServeInner::Multipart { ranges, .. } && ranges@ == v)) }
@@ -296,6 +296,10 @@ spec fn proj_c14<D, E>(ent: &EntityRef<D, E>, method: &Method, req: Map<HeaderNa
             forall|k: HeaderName| #[trigger] common_map(ent).dom().contains(k) ==> o_hmap(out).dom().contains(k) && o_hmap(out)[k] == common_map(ent)[k])
     &&& (out matches ServeInner::Simple(r) ==> r.extra.entity_hdrs@ == (st == 200 || (st == 206 && !req.dom().contains(HeaderName::IF_RANGE) && !o_hmap(out).dom().contains(HeaderName::CONTENT_TYPE))))
     &&& (out matches ServeInner::Multipart { part_headers, ranges, .. } ==> multipart_parts_ok(part_headers@, ranges@, e_len(ent), ent_hdrs_for(ent, req)))
+    // echoing a served strong ETag in If-Range gets the requested range
+    &&& ((proceeds(ent, method, req) && req.dom().contains(HeaderName::IF_RANGE) && req.dom().contains(HeaderName::RANGE)
+            && (e_etag(ent) matches Some(e) && is_tag_form(e.bytes@) && !etag_spec::is_weak(e.bytes@) && req[HeaderName::IF_RANGE].bytes@ =~= e.bytes@)) ==>
+        range_outcome(ent, method, out, range::rr_view(Some(&req[HeaderName::RANGE]), e_len(ent)).0, range::rr_view(Some(&req[HeaderName::RANGE]), e_len(ent)).1, ent_hdrs_for(ent, req)))
 }
 /// The length a body announces through its own accounting (its exact size hint, unit `streams`).
 spec fn announced<D, E>(out: ServeInner<D, E>) -> Option<u64> {
@@ -331,6 +335,10 @@ spec fn proj_c02<D, E>(ent: &EntityRef<D, E>, method: &Method, req: Map<HeaderNa
 spec fn proj_c06<D, E>(ent: &EntityRef<D, E>, method: &Method, req: Map<HeaderName, HeaderValue>, out: ServeInner<D, E>, calls: Seq<(u64, u64)>) -> bool {
     let hm = o_hmap(out);
     let len = e_len(ent);
+    // 413 only when the exact multipart length does not fit in u64
+    &&& (o_status(out) == 413 ==> (proceeds(ent, method, req) && {
+            let v = range::rr_view(effective_range(ent, req), len).1;
+            total_len(v, len, ent_hdrs_for(ent, req), v.len() as int) + 9 > u64::MAX }))
     &&& (out matches ServeInner::Multipart { res, part_headers, ranges, len: t } ==> {
             &&& multipart_parts_ok(part_headers@, ranges@, len, ent_hdrs_for(ent, req))
             &&& t as int == total_len(ranges@, len, ent_hdrs_for(ent, req), ranges@.len() as int) + 9
@@ -338,7 +346,7 @@ spec fn proj_c06<D, E>(ent: &EntityRef<D, E>, method: &Method, req: Map<HeaderNa
             &&& hm.dom().contains(HeaderName::CONTENT_TYPE) && hm[HeaderName::CONTENT_TYPE] == HV::Static("multipart/byteranges; boundary=B"@)
             &&& hm.dom().contains(HeaderName::CONTENT_LENGTH) && hm[HeaderName::CONTENT_LENGTH] == HV::Fmt("{}"@, seq![t])
             &&& !hm.dom().contains(HeaderName::CONTENT_RANGE)
-            &&& (proceeds(ent, method, req) ==> ranges@ == range::rr_view(effective_range(ent, req), len).1)
+            &&& ((proceeds(ent, method, req) && !req.dom().contains(HeaderName::IF_RANGE)) ==> ranges@ == range::rr_view(effective_range(ent, req), len).1)
         })
 }
 /// C15: HEAD never reads the entity and has an empty body.
